@@ -209,7 +209,27 @@ def to_poly(s, atom_map=None, _depth: int = 0) -> Optional[Poly]:
     # atoms: ('in', ...), ('rd', ...), ('param', ...), ('elem', ...), ('idx', ...), ('lenterm', ...), ...
     if atom_map is not None:
         s = atom_map(s)
+    if _has_star(s):
+        # a term at an unknown position ('*'): two occurrences need not denote the same value, so each occurrence is
+        # its own atom (never cancels, never proves two normal forms equal)
+        _STAR_COUNTER[0] += 1
+        return p_atom(("star-occurrence", _STAR_COUNTER[0], s))
     return p_atom(s)
+
+
+_STAR_COUNTER = [0]
+
+
+def _has_star(s, depth: int = 0) -> bool:
+    if not isinstance(s, tuple) or depth > 60:
+        return False
+    if s == ("*",):
+        return True
+    if s and s[0] == "opq":
+        return len(s) > 3 and isinstance(s[3], tuple) and "*" in s[3]
+    if s and s[0] == "const":
+        return False
+    return any(_has_star(a, depth + 1) for a in s[1:] if isinstance(a, tuple))
 
 
 # functions with f(z) + f(-z) = 1, known by a recognised shape (logistic) or by role (the Gaussian CDF)
